@@ -10,14 +10,17 @@ Oracle: the property text on the real code (table equality against an independen
 lookup agreement, exactly-once completion), including real Log/Param/TocCache stacks.
 """
 import json
+import logging
 import os
 
 from core import coqrun
 from fakes import c03_toc as fk
 
+logging.getLogger('cflib').setLevel(logging.ERROR)   # cache misses are logged as warnings
+
 ID = 'C03'
 PROPERTY_FILE = 'C03/Property.v'
-LEVEL = 'other'
+LEVEL = 'proof'
 ALLOWED_AXIOMS = ()
 TRUSTED_BASE = [
     'C03/Model.v is hand-written from toc.py (Toc, TocFetcher), LogTocElement/ParamTocElement.__init__ and '
@@ -39,7 +42,8 @@ PROVED = ('Element decoding is the inverse of the wire encoding for every type c
           'lookups by (group,name), by id and by complete name agree; after the extended-type phase the persistent '
           'marker is the device\'s.')
 NOT_PROVED = ('Thread interleavings inside _ExtendedTypeFetcher below the granularity "runs until blocked"; packets '
-              'of an earlier session; unsolicited MISC packets carrying the queried id during the extended phase.')
+              'of an earlier session; unsolicited MISC packets carrying the queried id during the extended phase; '
+              'the extended-phase model marks every element with the answered id (code: the first), equal for distinct ids.')
 
 LOG_PORT, PARAM_PORT = 5, 2
 
@@ -270,7 +274,7 @@ def run_fetch(case, choose=None):
         if ev[0] == 'D':
             reqs = cf.sent(port, 0)
             if ev[1] < len(reqs):
-                r = dev.reply(bool(f._useV2), reqs[ev[1]][3])
+                r = dev.reply(ver >= 4, reqs[ev[1]][3])     # the device speaks the generation it announced
                 if r is not None:
                     cf.deliver(port, 0, r)
         else:
@@ -803,6 +807,13 @@ def tie_lookup(ctx, dist):
 
 def check_table(cls, items, toc, ids=None, pers=None):
     """toc (a cflib Toc) must be exactly the device table.  Returns a description of the first mismatch or None."""
+    try:
+        return _check_table(cls, items, toc, ids, pers)
+    except Exception as e:  # a malformed table must be reported, not crash the oracle
+        return 'table is malformed: %s: %s' % (type(e).__name__, e)
+
+
+def _check_table(cls, items, toc, ids=None, pers=None):
     want = {}
     for i, it in enumerate(items):
         want[(bytes(it['group']).decode('latin-1'), bytes(it['name']).decode('latin-1'))] = (i if ids is None else ids[i], it)
@@ -810,6 +821,8 @@ def check_table(cls, items, toc, ids=None, pers=None):
     if not isinstance(toc.toc, dict):
         return 'table is not a dict'
     for g, d in toc.toc.items():
+        if not isinstance(d, dict):
+            return 'group %r of the table is a %s' % (g, type(d).__name__)
         for n, e in d.items():
             have[(g, n)] = e
     if set(have) != set(want):
